@@ -161,8 +161,13 @@ class Specs:
         self.class_attrs[(cls, name)] = parse_ty(ty)
 
     def contract(self, qual, **kw):
+        # 'Class.method@Variant' registers a second contract for the same function (other concrete classes of self)
+        key = qual
+        if '@' in qual:
+            qual = qual.split('@')[0]
         c = Contract(qual, **kw)
-        self.contracts[qual] = c
+        c.key = key
+        self.contracts[key] = c
         return c
 
     def interface(self, cls, method, **kw):
@@ -293,7 +298,18 @@ class Specs:
         return self.getters.get(f'{cls}.{name}')
 
     def contract_for(self, fi, cls):
-        return self.contracts.get(fi.qualname)
+        """the contract of function fi for a receiver of concrete class cls (variants 'qual@Tag' carry for_cls)"""
+        best = None
+        for key, c in self.contracts.items():
+            if c.qual != fi.qualname:
+                continue
+            if c.for_cls is None:
+                best = best or c
+            elif cls in c.for_cls:
+                return c
+        if best is not None and best.for_cls is None:
+            return best
+        return None
 
     def interface_for(self, cls, name):
         return self.interfaces.get((cls, name))
@@ -307,7 +323,7 @@ class Specs:
         return self.externs.get(f'{cls}.{name}') or self.externs.get('?.' + name)
 
     def call_policy(self, ex, recv, cls, name, info, fr):
-        c = self.contracts.get(info.qualname)
+        c = self.contract_for(info, cls)
         is_self = ex.task_self is not None and recv.t.eq(ex.task_self.t)
         d = self.externs.get(info.qualname)
         if d is not None and d.always and not is_self and ex.task_cls != info.cls:
